@@ -220,6 +220,8 @@ class World:
         import select as _select
         import threading
 
+        import dpapi_ng as _dpkg
+
         from simworld import locks, osseams
 
         patch(_select, "select", osseams.make_select(self, _select.select))
@@ -227,6 +229,7 @@ class World:
             patch(_select, "poll", osseams.make_poll(self, _select.poll))
         if patch_entropy:
             patch(builtins, "open", osseams.make_open(self, builtins.open))
+        patch(builtins, "id", osseams.make_id(self, builtins.id, os.path.dirname(os.path.abspath(_dpkg.__file__)) + os.sep))
 
         import dpapi_ng as _pkg
 
